@@ -1,5 +1,5 @@
-import ast, sys, textwrap
-sys.path.insert(0, '/verif/tools/translate')
+import ast, os, sys, textwrap
+sys.path.insert(0, os.path.dirname(os.path.dirname(os.path.abspath(__file__))))
 from pycoq import *
 
 def N(src, cls=False, **kw):
@@ -74,3 +74,39 @@ check('method local clash', "class C:\n def _m(self, q):\n  ns = s.get(q)\n  ret
 check('method overridden in module', "class D:\n def _m(self, q):\n  return 2\nclass C:\n def _m(self, q):\n  return q\n def f(self, q):\n  return self._m(q)", "return self._m(q)", cls=True)
 check('method stmts attr arg', "class C:\n def _m(self, q):\n  z = k(q)\n  return z\n def f(self):\n  x = self._m(self.a)\n  return x", "x = self._m(self.a)\nreturn x", cls=True, single_use=False)
 check('method nested call stmts', "class C:\n def _m(self, q):\n  z = k(q)\n  return z\n def f(self, q):\n  return g(self._m(q))", "return g(self._m(q))", cls=True)
+# ---- round 2 ------------------------------------------------------------------------------------------------------------
+OFF = dict(annotations=False, guards=False, accumulate=False, single_use=False, helpers=False)
+# ---- N7 else after a leaving branch
+check('else flattened', "def f(s):\n if s.c >= s.m:\n  w()\n  return False\n else:\n  s.c += 1\n  return True", "if s.c >= s.m:\n    w()\n    return False\ns.c += 1\nreturn True", **OFF)
+check('elif chain', "def f(s, d):\n if s.r is None:\n  return 0.0\n elif s.t == A:\n  return 1\n elif s.t == B:\n  return 2\n else:\n  raise E()", "if s.r is None:\n    return 0.0\nif s.t == A:\n    return 1\nif s.t == B:\n    return 2\nraise E()", **OFF)
+check('else kept when body falls through', "def f(v):\n if v == A:\n  x = 1\n elif v == B:\n  x = 2\n else:\n  raise E()\n return x", "if v == A:\n    x = 1\nelif v == B:\n    x = 2\nelse:\n    raise E()\nreturn x", **OFF)
+check('else flattened in loop', "def f(l):\n for x in l:\n  if x:\n   return 1\n  else:\n   k(x)\n return 0", "for x in l:\n    if x:\n        return 1\n    k(x)\nreturn 0", **OFF)
+# ---- N8 guard on a disjunction
+check('or guard split', "def f(s, e):\n if e not in s.q or not s.h:\n  return []\n return [s.a]", "if e not in s.q:\n    return []\nif not s.h:\n    return []\nreturn [s.a]", split_or=True, **OFF)
+check('or guard not split when body falls through', "def f(a, b):\n if a or b:\n  k()\n return 1", "if a or b:\n    k()\nreturn 1", split_or=True, **OFF)
+check('or with else: else flattened first, then split', "def f(a, b):\n if a or b:\n  return 0\n else:\n  return 1", "if a:\n    return 0\nif b:\n    return 0\nreturn 1", split_or=True, **OFF)
+check('and guard untouched by split', "def f(a, b):\n if a and b:\n  return 0\n return 1", "if a and b:\n    return 0\nreturn 1", split_or=True, **OFF)
+check('or split is off by default', "def f(a, b):\n if a or b:\n  return 0\n return 1", "if a or b:\n    return 0\nreturn 1", **OFF)
+# ---- N9 hoisted number
+NUM = dict(OFF, numeric_locals=True)
+check('hoisted number into loop', "def f(self, qs):\n for b in bs:\n  m: float = g(b)\n  h: float = m * 0.5\n  for q in qs:\n   k(t=h, q=q)", "for b in bs:\n    m: float = g(b)\n    for q in qs:\n        k(t=m * 0.5, q=q)", **NUM)
+check('hoisted: operand not annotated as number', "def f(self, qs):\n m = g()\n h = m * 0.5\n for q in qs:\n  k(h)", "m = g()\nh = m * 0.5\nfor q in qs:\n    k(h)", **NUM)
+check('hoisted: numeric parameter', "def f(self, m: float, qs):\n h = m * 0.5\n for q in qs:\n  k(h)", "for q in qs:\n    k(m * 0.5)", **NUM)
+check('hoisted: operand rebound in between', "def f(self, m: float, qs):\n h = m * 2\n for q in qs:\n  m = q\n  k(h)", "h = m * 2\nfor q in qs:\n    m = q\n    k(h)", **NUM)
+check('hoisted: operand bound twice', "def f(self, qs):\n m: float = 1.0\n h = m * 2\n for q in qs:\n  k(h)\n m = 3", "m: float = 1.0\nh = m * 2\nfor q in qs:\n    k(h)\nm = 3", **NUM)
+check('hoisted: division refused', "def f(self, m: float, qs):\n h = m / 2\n for q in qs:\n  k(h)", "h = m / 2\nfor q in qs:\n    k(h)", **NUM)
+check('hoisted: call refused', "def f(self, m: float, qs):\n h = g(m)\n for q in qs:\n  k(h)", "h = g(m)\nfor q in qs:\n    k(h)", **NUM)
+check('hoisted: two uses refused', "def f(self, m: float, qs):\n h = m * 2\n for q in qs:\n  k(h, h)", "h = m * 2\nfor q in qs:\n    k(h, h)", **NUM)
+check('hoisted: use in lambda refused', "def f(self, m: float):\n h = m * 2\n return lambda: h", "h = m * 2\nreturn lambda: h", **NUM)
+check('hoisted: use in comprehension refused', "def f(self, m: float, qs):\n h = m * 2\n return [h for q in qs]", "h = m * 2\nreturn [h for q in qs]", **NUM)
+check('hoisted: attribute operand refused', "def f(self, qs):\n h = self.m * 2\n for q in qs:\n  k(h)", "h = self.m * 2\nfor q in qs:\n    k(h)", **NUM)
+check('hoisted: off by default', "def f(self, m: float, qs):\n h = m * 0.5\n for q in qs:\n  k(h)", "h = m * 0.5\nfor q in qs:\n    k(h)", **OFF)
+# ---- N4 / N5 interplay, displays are trivially pure, `r += [e]`
+check('temporary in accumulate loop', "def f(self, i, s):\n r: List[X] = []\n ts: List[int] = e(i)\n for t in ts:\n  a: float = s.g(t).ae\n  r.append(CI(self.n, [t], [a]))\n return r", "ts = e(i)\nreturn [CI(self.n, [t], [s.g(t).ae]) for t in ts]")
+check('display before use is pure', "def f(a):\n x = g()\n return h([a], (a, 1), x)", "return h([a], (a, 1), g())")
+check('display with call before use is not', "def f(a):\n x = g()\n return h([k()], x)", "x = g()\nreturn h([k()], x)")
+check('accumulate with +=', "def f(it):\n r = []\n for x in it:\n  r += [x + 1]\n return r", "return [x + 1 for x in it]")
+check('accumulate with += of two', "def f(it):\n r = []\n for x in it:\n  r += [x, x]\n return r", "r = []\nfor x in it:\n    r += [x, x]\nreturn r")
+# ---- N6 private method in integer expressions (expression form, attribute argument)
+check('method expr attr arg', "class C:\n def _lb(self, i: int) -> int:\n  return i - (self.last + 1)\n def f(self):\n  m: int = self._lb(self.main)\n  s: int = self._lb(self.sec)\n  return g(m, s)", "m: int = self.main - (self.last + 1)\ns: int = self.sec - (self.last + 1)\nreturn g(m, s)", cls=True, annotations=False, single_use=False)
+
